@@ -21,9 +21,10 @@
 static CC_ArraySized *ar[NSLOT];
 static CC_ArraySizedIter it;       static int it_on, it_slot;
 static CC_ArraySizedZipIter zit;   static int zit_on, zit_s1, zit_s2;
+static int sparse;                 /* obs=sparse session: content is printed by `observe` only */
 static size_t cur_dl;              /* element size seen by the callbacks of the running op */
 
-static void shim_reset(void) { for (int i = 0; i < NSLOT; i++) ar[i] = NULL; it_on = zit_on = 0; }
+static void shim_reset(void) { for (int i = 0; i < NSLOT; i++) ar[i] = NULL; it_on = zit_on = 0; sparse = 0; }
 
 static void *sz_malloc(size_t n) { void *p = conf_malloc(n); if (p) memset(p, POISON, n); return p; }
 
@@ -143,6 +144,7 @@ static void conf_fill(CC_ArraySizedConf *conf, Cmd *c) {
 static void do_op(Cmd *c) {
     int s = (int)kv_u64(c, "o", 0); if (s < 0 || s >= NSLOT) s = 0;
     cbs_reset();
+    if ((is_op(c, "new") || is_op(c, "new_default")) && !strcmp(kv_str(c, "obs", ""), "sparse")) sparse = 1;
     if (is_op(c, "new")) {
         CC_ArraySizedConf conf; conf_fill(&conf, c);
         size_t es = kv_u64(c, "esize", 1);
@@ -159,6 +161,7 @@ static void do_op(Cmd *c) {
         o_stat(st); goto tail;
     }
     if (!any_obj()) { o("st=- nosession"); o_sep(); o("-"); return; }
+    if (is_op(c, "observe")) { o("st=-"); goto tail; }
     if (is_op(c, "destroy")) {
         for (int k = 0; k < NSLOT; k++) if (ar[k]) { cc_array_sized_destroy(ar[k]); ar[k] = NULL; }
         it_on = zit_on = 0; o("st=-"); goto tail;
@@ -324,5 +327,6 @@ static void do_op(Cmd *c) {
     } else o("st=- badop");
     }
 tail:
-    obs_all(); o_sep(); phys();
+    if (!sparse || is_op(c, "observe")) obs_all();
+    o_sep(); phys();
 }
